@@ -219,7 +219,11 @@ func (e *tempError) Temporary() bool { return true }
 var (
 	onceMu   sync.Mutex
 	onceDone = map[string]bool{}
+	fires    = map[int]int{}
 )
+
+// Fires is how often an injected failure point of run fired.
+func Fires(run int) int { onceMu.Lock(); defer onceMu.Unlock(); return fires[run] }
 
 // FailMsg is the message carried by injected failures.
 func FailMsg(run, node int) string { return fmt.Sprintf("verif-user-failure-r%d-n%d", run, node) }
@@ -238,15 +242,16 @@ func trip(f *Fail, run, node, shard, calls int) (fire bool) {
 	if calls < f.Row {
 		return false
 	}
+	onceMu.Lock()
+	defer onceMu.Unlock()
 	if f.Once {
 		k := fmt.Sprintf("%d/%d/%d", run, node, shard)
-		onceMu.Lock()
-		defer onceMu.Unlock()
 		if onceDone[k] {
 			return false
 		}
 		onceDone[k] = true
 	}
+	fires[run]++
 	return true
 }
 
